@@ -24,7 +24,10 @@ RULE = (
     "harness clock step (equal contents at several paths; hard-linked files are replaced, not written through), "
     "build(upload=True)+transfer, direct add under the id an honest caller computes (optionally hard-linked), "
     "store->store transfer of a drawn id subset (shallow/expanded, hardlink), index build->md5->save of a "
-    "wrapped tree (one .dir object per directory level), migrate (prepare+migrate: D->L, D->G, L->X, G->X), "
+    "wrapped tree (one .dir object per directory level) either into an explicit store or through the index's "
+    "storage map (md5 cache at the root key, the legacy store registered as cache at 0-2 drawn file/directory keys, "
+    "entries hashed under the algorithm of the cache their key resolves to; every file entry's object must then be "
+    "in that cache), migrate (prepare+migrate: D->L, D->G, L->X, G->X), "
     "gc with a drawn used subset, and crash_leftover: the harness plants what an add killed inside the reflink "
     "probe leaves in a local-class store (empty or partially written 0o644 file under the final path of a pool "
     "file/directory object not yet in the store); store objects are long-lived across the history. A planted "
@@ -317,6 +320,59 @@ class C01Machine(TraceMachine):
         if isdir and any("/" in rel for rel in flat):
             self.effective.add("index_save-nested")
             self.labels.add("index_save-nested")
+
+    @rule(item=st.integers(0, 7), dkeys=st.lists(st.integers(0, 40), max_size=2), cache_root=st.sampled_from([0, 0, 1]))
+    @traced
+    def index_save_mapped(self, item, dkeys, cache_root):
+        """index build -> hash -> save(index) WITHOUT an explicit odb: the cache is resolved through the index's
+        storage map - an md5 store (L or G) as cache at the root key and the legacy D store registered as cache at
+        0-2 drawn file or directory keys of the saved tree (a partly migrated repository).  The honest caller
+        records, per entry, the digest under the algorithm of the cache its key resolves to."""
+        from dvc_objects.fs.local import LocalFileSystem
+
+        from dvc_data.hashfile.hash_info import HashInfo
+        from dvc_data.index import ObjectStorage
+        from dvc_data.index import build as ibuild
+        from dvc_data.index import save as isave
+
+        if not self.pool:
+            return
+        path, isdir, body = self.pool[item % len(self.pool)]
+        flat = dict(body) if isdir else {"": body}
+        fkeys = {("t", *rel.split("/")) if rel else ("t",): data for rel, data in flat.items()}
+        dirkeys = sorted({k[:n] for k in fkeys for n in range(1, len(k))})
+        cands = sorted(fkeys) + dirkeys
+        legacy = sorted({cands[i % len(cands)] for i in dkeys})
+        idx = ibuild(os.path.dirname(path), LocalFileSystem())
+        idx.storage_map.add_cache(ObjectStorage(key=(), odb=self.odbs[cache_root]))
+        for k in legacy:
+            idx.storage_map.add_cache(ObjectStorage(key=k, odb=self.odbs[2]))
+
+        def resolve(key):  # own longest-prefix resolver
+            best = max((k for k in legacy if key[: len(k)] == k), key=len, default=None)
+            return cache_root if best is None else 2
+
+        for key, entry in idx.iteritems():
+            if key in fkeys:
+                algo = STORES[resolve(key)][2]
+                entry.hash_info = HashInfo(algo, _href(fkeys[key], algo))
+        isave(idx)
+        self.labels.add("index_save_mapped" + (f"-legacy-keys={len(legacy)}" if legacy else ""))
+        parents = {}
+        for k in fkeys:
+            parents.setdefault(k[:-1], set()).add(resolve(k))
+        if any(len(v) > 1 for v in parents.values()):
+            self.labels.add("siblings-in-different-caches")
+        if isdir and any("/" in rel for rel in flat):
+            self.effective.add("index_save-nested")
+        for key in sorted(fkeys):
+            si = resolve(key)
+            oid = _href(fkeys[key], STORES[si][2])
+            p = self.odbs[si].oid_to_path(oid)
+            if not os.path.exists(p):
+                self.violate("index-save-object-missing-from-its-cache",
+                             f"save(index): entry {'/'.join(key)} resolves to cache {STORES[si][0]} but its object "
+                             f"{oid} is not there")
 
     @rule(route=st.sampled_from(sorted(ROUTES)))
     @traced
